@@ -565,11 +565,16 @@ type EncDisp struct {
 	Okf, Okp, Panicf, Panicp bool
 	Bytesf, Bytesp           []int
 	PrefixKept               bool
+	// ... and once more into a fresh buffer AFTER the call into the filled one (r); the header view before the first and
+	// after the last call: the same message type routes to the same encoder every time, and encoding leaves the view alone
+	Okr, Panicr  bool
+	Bytesr       []int
+	HdrB4, HdrAf []int
 }
 
 // encode dispatch: a message whose header view carries message type Mt and whose body is M (or none)
-func runEncDisp(c Case) EncDisp {
-	e := EncDisp{Op: "EncDisp", Fam: c.Fam, Mt: c.Mt, M: c.M, Bytes: []int{}}
+func runEncDisp(c Case) (e EncDisp) {
+	e = EncDisp{Op: "EncDisp", Fam: c.Fam, Mt: c.Mt, M: c.M, Bytes: []int{}}
 	var m *nas.Message
 	if c.M != "" {
 		var err error
@@ -590,6 +595,15 @@ func runEncDisp(c Case) EncDisp {
 	} else if m.GsmMessage != nil {
 		m.GsmMessage.GsmHeader.SetMessageType(uint8(c.Mt))
 	}
+	hdrView := func() []int {
+		if m.GmmMessage != nil {
+			return ev.Ints(m.GmmMessage.GmmHeader.Octet[:])
+		} else if m.GsmMessage != nil {
+			return ev.Ints(m.GsmMessage.GsmHeader.Octet[:])
+		}
+		return []int{}
+	}
+	e.HdrB4 = hdrView()
 	pi := ev.Guard(func() {
 		out, err := m.PlainNasEncode()
 		e.Ok = err == nil
@@ -600,8 +614,14 @@ func runEncDisp(c Case) EncDisp {
 	if pi != nil {
 		e.Panic, e.Pfn = true, pi.Fn+": "+pi.Kind
 	}
-	e.Bytesf, e.Bytesp, e.PrefixKept = []int{}, []int{}, true
+	e.Bytesf, e.Bytesp, e.Bytesr, e.PrefixKept = []int{}, []int{}, []int{}, true
 	e.Okf, e.Okp, e.Panicf, e.Panicp = e.Ok, e.Ok, e.Panic, e.Panic
+	defer func() {
+		if m.GmmMessage == nil && m.GsmMessage == nil {
+			e.Okr, e.Panicr = e.Ok, e.Panic
+		}
+		e.HdrAf = hdrView()
+	}()
 	direct := func(buf *bytes.Buffer) error {
 		if m.GmmMessage != nil {
 			return m.GmmMessageEncode(buf)
@@ -631,6 +651,16 @@ func runEncDisp(c Case) EncDisp {
 			}
 		}); pi != nil {
 			e.Okp, e.Panicp = false, true
+		}
+		if pi := ev.Guard(func() {
+			buf := new(bytes.Buffer)
+			err := direct(buf)
+			e.Okr, e.Panicr = err == nil, false
+			if e.Okr {
+				e.Bytesr = ev.Ints(buf.Bytes())
+			}
+		}); pi != nil {
+			e.Okr, e.Panicr = false, true
 		}
 	}
 	return e
